@@ -461,8 +461,8 @@ class Comparison(Display):
                         service1)  # type: ignore[arg-type]
 
             # check whether names of diagnostic services have changed
-            elif service1 not in dl2.services:
-                if rq_prefix is None or rq_prefix in dl2_request_prefixes:
+            if service1.short_name not in [s.short_name for s in dl2.services]:
+                if rq_prefix is not None and rq_prefix in dl2_request_prefixes:
                     # get related diagnostic service for request
                     service2_idx = dl2_request_prefixes.index(rq_prefix)
                     service2 = dl2.services[service2_idx]
